@@ -695,6 +695,15 @@ def task(t):
             if len(ops) >= 4 and len(acc.samples) < 1:
                 acc.sample({"ops": show_ops(ops), "config": t["config"],
                             "histories": "every split x merge choice"})
+    elif t["mode"] == "sizes":
+        for case in t["cases"]:
+            acc.count("evaluations", len(case["splits"]))
+            acc.count("histories")
+            acc.count("histories_complete")
+            acc.count("size_vector_histories")
+            acc.count("distinct_nontrivial")
+            for k, d, text in check_history(case["ops"], case["splits"], case["merges"], case["config"]):
+                raw.append((k, d, text, case))
     elif t["mode"] == "mp":
         for case in t["cases"]:
             acc.count("evaluations")
@@ -841,6 +850,27 @@ def mp_cases(tier, seed):
     return cases
 
 
+def size_cases(tier, seed):
+    out = []
+    kmax = 3 if tier == "quick" else 4
+    vectors = [sz for k in range(1, kmax + 1) for sz in itertools.product((1, 2, 7, 12), repeat=k)]
+    # MERGE_SMALL only acts from the fifth-smallest segment on: 5-7 segments
+    small = (1, 2) if tier == "quick" else (1, 2, 3)
+    vectors += [sz for k in (5, 6) for sz in itertools.product(small, repeat=k)]
+    vectors += [sz for sz in itertools.product((1, 2), repeat=7)]
+    for sizes in vectors:
+        k = len(sizes)
+        if True:
+            if sum(sizes) + 2 > len(KEYS):
+                continue
+            n = sum(sizes) + 2
+            ops = [["add", KEYS[i], (i + seed) % H.NVARIANTS] for i in range(n)]
+            for last in (["default", "default"], ["default", "optimize"]):
+                out.append({"ops": ops, "splits": list(sizes) + [1, 1], "merges": ["nomerge"] * k + last,
+                            "config": {"blocklimit": 128}})
+    return out
+
+
 def run(ctx):
     seed = ctx.seed
     tasks = []
@@ -849,12 +879,21 @@ def run(ctx):
         fam_info[name] = len(lists)
         for ch in chunks(lists, per):
             tasks.append({"mode": "explore", "oplists": ch, "config": config, "seed": seed})
+    # segment-size vectors: the default merge policy decides by the sizes of
+    # the existing segments (sorted by size, Fibonacci thresholds), so every
+    # vector of up to 3 (thorough 4) segment sizes from {1, 2, 7, 12} is built
+    # with merge=False commits and followed by two default commits of one
+    # document each
+    szc = size_cases(ctx.tier, seed)
+    for ch in chunks(szc, 4):
+        tasks.append({"mode": "sizes", "cases": ch, "seed": seed})
+    ctx.extra["size_vector_histories_planned"] = len(szc)
     mpc = mp_cases(ctx.tier, seed)
     for ch in chunks(mpc, 3):
         tasks.append({"mode": "mp", "cases": ch, "seed": seed})
     # long explorations first (shorter tail); the smallest failing case of
     # every violation class is selected afterwards, whatever the order
-    tasks.sort(key=lambda t: -max(len(o) for o in t["oplists"]) if t["mode"] == "explore" else -5)
+    tasks.sort(key=lambda t: -max(len(o) for o in t["oplists"]) if t["mode"] == "explore" else (-6 if t["mode"] == "sizes" else -5))
     ctx.extra["mp_histories_planned"] = len(mpc)
     ctx.extra["families"] = fam_info
     ctx.rule = ("operation lists over {A add fresh key, G group(parent, child), Uf update of a non-live key, "
@@ -862,7 +901,10 @@ def run(ctx):
                 "for each list every split into commits x every merge choice per commit is executed level by "
                 "level, histories reaching the same physical layout are merged (counted in 'histories'), every "
                 "distinct layout is observed once ('observations'); 'evaluations' = commits executed on the real "
-                "code; an operation list is non-trivial when it contains a delete, update, group or field removal")
+                "code; an operation list is non-trivial when it contains a delete, update, group or field removal; plus "
+                "every vector of up to 3 (thorough 4) segment sizes from {1, 2, 7, 12} and every vector of 5-7 sizes from {1, 2} "
+                "(thorough {1, 2, 3} for 5-6) built with merge=False commits and "
+                "followed by two default / default+optimize commits (the size-driven merge policy)")
     ctx.assumptions = [
         "documented writer discipline: within one writer a key already written is not updated or deleted again "
         "(update_document/delete_by_term see committed documents only); remove_field is the first call of its writer",
